@@ -14,11 +14,11 @@ META = {
                 "for OpMethod.get('all'))", "OpMethod._initialize table", "Stream.__init__ (iterable/scalar/periodic)",
                 "Stream.__getattr__/__call__/__abs__", "lazy_misc.elementwise", "lazy_math wrappers (all names)",
                 "lazy_math.log/log1p/dB10/dB20/sign/absolute/factorial", "lazy_midi.midi2freq/freq2midi/str2midi/midi2str/..."],
-  "bounds": {"quick": "operand lengths 0..3 (case-split symbolic integers), all operator methods of the running table x operand "
-                      "kinds {Stream, list, tuple, generator, range-like iterator, scalar, periodic Stream}; depth-2 trees for "
-                      "all operator pairs of a seeded sample of 120 shapes; broadcast functions on scalar/list/tuple/deque/set/"
-                      "Stream/generator/map/zip/filter/enumerate inputs",
-             "thorough": "lengths 0..4, 600 depth-2 shapes and 200 depth-3 shapes"},
+  "bounds": {"quick": "operand lengths 0..4 (case-split symbolic integers), all operator methods of the running table x operand "
+                      "kinds {Stream, list, tuple, generator, range-like iterator, scalar, periodic Stream}; 400 depth-2 operator "
+                      "pairs and 150 seeded depth-3 shapes; every operator on concrete bool/int/float/complex/Fraction elements; "
+                      "broadcast functions on scalar/list/tuple/deque/set/frozenset/Stream/generator/map/filter inputs",
+             "thorough": "lengths 0..5, all ordered operator pairs at depth 2 and 1500 seeded depth-3 shapes"},
   "outside": "numpy arrays/matrices (numpy absent), ternary pow and divmod (not overloaded), element types whose "
              "operators have side effects; numeric values of the C math functions themselves (only routing/type "
              "preservation is claimed)",
@@ -404,7 +404,7 @@ def h_typed(ctx, cfg):
 
 def tasks(tier, seed):
   big = tier == "thorough"
-  N = 4 if big else 3
+  N = 5 if big else 4
   T = []
   table = _table()
   for op in table:
@@ -436,12 +436,12 @@ def tasks(tier, seed):
   # every ordered operator pair once at depth 2 (left-nested), then seeded random shapes
   pairs = [(a, b) for a in binops for b in binops]
   rng.shuffle(pairs)
-  for a, b in pairs[: (len(pairs) if big else 150)]:
+  for a, b in pairs[: (len(pairs) if big else 400)]:
     l1 = rng.choice(["stream", "periodic", "stream"]); l2 = rng.choice(KINDS[:4] + ["scalar", "stream"]); l3 = rng.choice(KINDS[:4] + ["scalar", "periodic"])
     t = ("bin", b, ("bin", a, ("leaf", l1), ("leaf", l2)), ("leaf", l3)) if rng.random() < .6 else \
         ("bin", b, ("leaf", l3), ("bin", a, ("leaf", l1), ("leaf", l2)))
     shapes.append(t)
-  n3 = 200 if big else 40
+  n3 = 1500 if big else 150
   while n3 > 0:
     t = _rand_tree(rng, 3, binops, unops)
     if _has_stream(t) and t[0] != "leaf":
